@@ -5,6 +5,12 @@ use super::ZeroCopyStrategy;
 impl<T: ZeroCopyVecValue> RawStrategy<T> for ZeroCopyStrategy<T> {
     #[inline(always)]
     unsafe fn read_from_ptr(ptr: *const u8, byte_offset: usize) -> T {
+        #[cfg(feature = "verif")]
+        crate::verif::access(
+            ptr.wrapping_add(byte_offset),
+            size_of::<T>(),
+            "ZeroCopyStrategy::read_from_ptr",
+        );
         unsafe { (ptr.add(byte_offset) as *const T).read_unaligned() }
     }
 }
